@@ -1,4 +1,7 @@
 ENGINES = [
+    {"name": "sched (E2)", "path": "harness/src/{e2,sched}.rs", "serves_properties": ["C10", "C11"],
+     "kind_free_text": "E1's tower driven by 2-3 real OS threads; an observer behind the hooked Mutex/Condvar mediates every lock operation: serialising seeded "
+                       "PCT scheduler, scripted sequential reference schedules, free-running mode, wait-for / stuck detection, lock-order graph"},
     {"name": "towersim (E1)", "path": "harness/src/{e1,model,world,tower,chain,node,snap}.rs", "serves_properties": ["C01", "C02", "C04", "C06", "C07", "C08", "C09", "C11"],
      "kind_free_text": "the real tower components in one process against a simulated chain and node; a sequential reference model (TowerModel) and "
                        "per-property monitors compare replies, sqlite rows, private-API answers and the node RPC log after every step"},
@@ -26,6 +29,19 @@ META = {
     "C07": _e1meta("DESIGN.md §4 C07", "Slot ledger conservation after every step with the balance read from reply, memory and disk; plus the slot formula for every length 0..4 MiB (that sub-space exhaustively)."),
     "C08": _e1meta("DESIGN.md §4 C08", "Every receipt is verified with the client-side verifier from exactly the returned fields; stored rows and read-backs are compared byte for byte with the last accepted version."),
     "C09": _e1meta("DESIGN.md §4 C09", "Expiry errors, renewals and purges are checked at exactly the promised heights over small (slots, duration, grace) grids, multi-block polls and reorgs."),
+    "C10": {
+        "engine": "sched (E2)", "level": "exploration", "design_ref": "DESIGN.md §4 C10, appendix B",
+        "technique": "runtime monitoring under a controlled scheduler: linearizability check of recorded outcomes against executed sequential interleavings",
+        "text": "Every scheduled execution's observable outcome must be a member of the set of sequential outcomes (obtained by executing the interleavings on identical "
+                "towers). Held on the schedules sampled; four reply-level anomalies are recorded as known findings.",
+        "note": "PCT sampling at lock granularity, <= 3 threads; the scheduler only sees synchronisation that goes through the hooked Mutex/Condvar.",
+    },
+    "C11": {
+        "engine": "sched (E2) + towersim (E1)", "level": "exploration", "design_ref": "DESIGN.md §4 C11, appendix B",
+        "technique": "runtime monitoring: wait-for/stuck-state detector inside the lock observer, lock-order graph, panic hook and liveness probe over scheduled executions and sequential histories",
+        "text": "A circular wait is reported only when it manifests (no enabled thread, holders/waiters listed); any panic in tower code is a violation. Held on everything executed.",
+        "note": "Sampled schedules and histories; outages of bitcoind are excluded here (C12).",
+    },
     "C17": {
         "engine": "pure (E6)", "level": "exploration", "design_ref": "DESIGN.md §4 C17",
         "technique": "runtime oracle over generated inputs (round-trip / mutation monitors on the real cryptography functions)",
